@@ -5,7 +5,12 @@ package main
 import (
 	"os"
 	"sort"
+	"strconv"
 	"strings"
+	"sync"
+
+	"github.com/kubeshark/base/pkg/api"
+	"ksverif/harness/internal/mock"
 
 	"ksverif/harness/internal/sched"
 	"ksverif/harness/internal/sx"
@@ -37,6 +42,8 @@ func genSchedExcl(r *Rand, tier string, emit func(sx.Sx)) {
 		}
 		emit(sx.L(sx.S(kind), sx.S(p)))
 		if kind == "emit" {
+			// free-running goroutines on several streams sharing one AppStats (no scheduler: real parallelism)
+			emit(sx.L(sx.S("emitstress"), sx.S(p)))
 			// three goroutines, two Emits each, on an open and on a closed stream: whoever is inside the
 			// region is held there while the others run - never two inside at once
 			emit(sx.L(sx.S("emit3"), sx.S(p)))
@@ -118,10 +125,50 @@ func runSchedHold(kind, point string) sx.Sx {
 	return sx.L(out...)
 }
 
+// runEmitStress: 8 streams x 2 goroutines x 4000 Emit calls sharing one AppStats, run by the Go scheduler
+// on all CPUs: the items, the distinct identities and the matched-pairs statistic must all be N.  What a
+// deterministic interleaving at yield points cannot show - an unsynchronised counter update - shows here.
+func runEmitStress() sx.Sx {
+	const nstreams, perSide = 8, 4000
+	stats := &api.AppStats{}
+	total := nstreams * 2 * perSide
+	out := make(chan *api.OutputChannelItem, total+8)
+	var wg sync.WaitGroup
+	start := make(chan struct{})
+	for i := 0; i < nstreams; i++ {
+		st := &mock.Stream{PcapId: string(rune('a' + i))}
+		em := &api.Emitting{AppStats: stats, Stream: st, OutputChannel: out}
+		for side := 0; side < 2; side++ {
+			wg.Add(1)
+			go func() {
+				defer wg.Done()
+				<-start
+				for j := 0; j < perSide; j++ {
+					em.Emit(&api.OutputChannelItem{})
+				}
+			}()
+		}
+	}
+	close(start)
+	wg.Wait()
+	close(out)
+	seen := map[string]bool{}
+	items := 0
+	for it := range out {
+		items++
+		seen[it.Stream+"/"+strconv.FormatInt(it.Index, 10)] = true
+	}
+	return sx.L(sx.A("stress"), sx.L(sx.A("emits"), sx.N(total)), sx.L(sx.A("items"), sx.N(items)),
+		sx.L(sx.A("distinct"), sx.N(len(seen))), sx.L(sx.A("matched"), sx.U(stats.MatchedPairs)))
+}
+
 func runSchedExcl(p sx.Sx) sx.Sx {
 	kind, point := string(p.List[0].Bytes()), string(p.List[1].Bytes())
 	if kind == "emit3" || kind == "emit3closed" {
 		return runSchedHold(kind, point)
+	}
+	if kind == "emitstress" {
+		return runEmitStress()
 	}
 	a, b := 0, 1
 	if strings.Contains(point, ".match.res.") {
@@ -155,6 +202,7 @@ func runSchedExcl(p sx.Sx) sx.Sx {
 	schedPreempt = func(string) bool { return true }
 	defer func() { schedPreempt = nil }()
 	var res sched.Result
+	var outcome sx.Sx
 	if kind == "emit" {
 		_, res = execSchedEmit([]emitSpec{{0, 1}, {0, 1}}, choose)
 	} else {
@@ -162,7 +210,13 @@ func runSchedExcl(p sx.Sx) sx.Sx {
 		if pc == nil {
 			return sx.L(sx.A("excl"), sx.A("unknown-kind"))
 		}
-		res = execSchedMatch(pc, 1, choose).res
+		sr := execSchedMatch(pc, 1, choose)
+		res = sr.res
+		// how the exchange ended after the parked task was released: one item, nothing left waiting -
+		// a task that blocks only after it has looked the counterpart up has been excluded too late
+		residue := 0
+		sr.conn.Matcher.GetMap().Range(func(k, v interface{}) bool { residue++; return true })
+		outcome = sx.L(sx.A("outcome"), sx.N(len(sr.conn.Out)), sx.N(residue))
 	}
 	// the steps of b taken while a was parked at the point
 	after := []sx.Sx{sx.A("after")}
@@ -186,6 +240,9 @@ func runSchedExcl(p sx.Sx) sx.Sx {
 		reached = "reached"
 	}
 	out := []sx.Sx{sx.A("excl"), sx.A(reached), sx.L(after...)}
+	if outcome.List != nil {
+		out = append(out, outcome)
+	}
 	if res.Deadlock {
 		out = append(out, sx.A("deadlock"))
 	}
